@@ -52,6 +52,9 @@ static int g_pipe[2] = { -1, -1 };
 static muggle_socket_evloop_handle_t g_seh;
 static muggle_socket_context_t g_sctx;
 static muggle_async_logger_t g_alog;
+static muggle_log_file_handler_t g_lfh;
+static muggle_log_file_rotate_handler_t g_lrh;
+static char g_logpath[600];
 static int g_keys[8] = { 10, 20, 30, 40, 50, 60, 70, 80 };
 static void *g_sortarr[5];
 
@@ -68,6 +71,7 @@ static void zero_all(void)
 	memset0(&g_trie, 0, sizeof g_trie); memset0(&g_sig, 0, sizeof g_sig); g_ev = NULL;
 	memset(&g_ctx, 0, sizeof g_ctx); memset0(&g_seh, 0, sizeof g_seh); memset(&g_sctx, 0, sizeof g_sctx);
 	memset0(&g_alog, 0, sizeof g_alog); memset(&g_ctx2, 0, sizeof g_ctx2); memset0(&g_evpipe, 0, sizeof g_evpipe);
+	memset0(&g_lfh, 0, sizeof g_lfh); memset0(&g_lrh, 0, sizeof g_lrh);
 	memset(&g_lctx, 0, sizeof g_lctx); g_hctx = NULL; g_lfd = g_cfd = g_ufd = -1;
 }
 
@@ -435,6 +439,33 @@ static int op_alog_log(void)
 }
 static void d_alog(void) { muggle_async_logger_destroy((muggle_logger_t *)&g_alog); }
 
+/* ---------------------------------------------------------------- log handlers that own a FILE* */
+static void fresh_logfile(void)
+{
+	char p[640];
+	unlink(g_logpath);
+	for (int i = 1; i <= 3; i++) { snprintf(p, sizeof(p), "%s.%d", g_logpath, i); unlink(p); }
+}
+static int op_lfh(void) { fresh_logfile(); return muggle_log_file_handler_init(&g_lfh, g_logpath, "w") == 0; }
+static void d_lfh(void) { g_lfh.handler.destroy((muggle_log_handler_t *)&g_lfh); }
+static int op_lrh(void) { fresh_logfile(); return muggle_log_file_rotate_handler_init(&g_lrh, g_logpath, 64, 2) == 0; }
+static void d_lrh(void) { g_lrh.handler.destroy((muggle_log_handler_t *)&g_lrh); fresh_logfile(); }
+/* two writes of ~100 bytes with max_bytes = 64: each write is followed by a rotation (fclose, rename,
+ * fopen); when the re-open fails the handler must drop the closed handle, so the second write is skipped */
+static int op_lrh_write2(void)
+{
+	muggle_log_msg_t msg;
+	memset(&msg, 0, sizeof(msg));
+	msg.level = MUGGLE_LOG_LEVEL_INFO;
+	msg.src_loc.file = "c18_driver.c";
+	msg.src_loc.line = 1;
+	msg.src_loc.func = "op_lrh_write2";
+	msg.payload = "0123456789012345678901234567890123456789012345678901234567890123456789012345678901234567890123456789";
+	g_lrh.handler.write((muggle_log_handler_t *)&g_lrh, &msg);
+	g_lrh.handler.write((muggle_log_handler_t *)&g_lrh, &msg);
+	return 1; /* failure of the rotation is not reported to the caller of write */
+}
+
 /* ---------------------------------------------------------------- table */
 struct inst {
 	const char *name;
@@ -524,6 +555,9 @@ static const struct inst g_inst[] = {
 	{ "array_list_content_index0_grow", pre_al_c4, op_al_c_index0, d_al_c, 1, 0, 5, 1 },
 	{ "heap_content_grow", pre_heap_c4, op_heap_c, d_heap_c, 1, 0, 5, 1 },
 	{ "stack_content_full", pre_stack_c3, op_stack_c, d_stack_c, 1, 0, 4, 1 },
+	{ "log_file_handler_init", NULL, op_lfh, d_lfh, 1, 0 },
+	{ "log_file_rotate_handler_init", NULL, op_lrh, d_lrh, 1, 0 },
+	{ "log_file_rotate_handler_write_rotate", op_lrh, op_lrh_write2, d_lrh, 1, 0 },
 };
 #define N_INST ((int)(sizeof(g_inst) / sizeof(g_inst[0])))
 
@@ -569,13 +603,13 @@ static void case_end(void)
 	fi_begin();
 	if (cur->pre && !cur->pre()) { printf("pre FAILED\n"); fi_end(); alarm(0); return; }
 	if (cur->settle) fi_settle();
-	printf("pre live=%d\n", fi_live_blocks() + fi_live_fds());
+	printf("pre live=%d\n", fi_live_blocks() + fi_live_fds() + fi_live_files());
 	fi_arm(ks, nks);
 	int ok = cur->op();
 	int att = fi_calls();
 	fi_disarm();
 	if (cur->settle) fi_settle();
-	printf("op rc=%s att=%d live=%d\n", ok ? "ok" : "fail", att, fi_live_blocks() + fi_live_fds());
+	printf("op rc=%s att=%d live=%d\n", ok ? "ok" : "fail", att, fi_live_blocks() + fi_live_fds() + fi_live_files());
 	fflush(stdout);
 	if (!ok && cur->retry) {
 		ok = cur->op();
@@ -586,11 +620,11 @@ static void case_end(void)
 		cur->destroy();
 		if (cur->settle) fi_settle();
 		if (cur->nvals > 0)
-			printf("destroy live=%d freed=%d\n", fi_live_blocks() + fi_live_fds(), g_cb_count);
+			printf("destroy live=%d freed=%d\n", fi_live_blocks() + fi_live_fds() + fi_live_files(), g_cb_count);
 		else
-			printf("destroy live=%d\n", fi_live_blocks() + fi_live_fds());
+			printf("destroy live=%d\n", fi_live_blocks() + fi_live_fds() + fi_live_files());
 	} else {
-		printf("destroy skipped live=%d\n", fi_live_blocks() + fi_live_fds());
+		printf("destroy skipped live=%d\n", fi_live_blocks() + fi_live_fds() + fi_live_files());
 	}
 	fi_end();
 	alarm(0);
@@ -599,6 +633,15 @@ static void case_end(void)
 int main(void)
 {
 	signal(SIGALRM, on_alarm);
+	{	/* scratch log file next to the executable (build/C18/), one per process */
+		char exe[512];
+		ssize_t n = readlink("/proc/self/exe", exe, sizeof(exe) - 1);
+		if (n <= 0) return 3;
+		exe[n] = 0;
+		char *sl = strrchr(exe, '/');
+		if (sl) *sl = 0;
+		snprintf(g_logpath, sizeof(g_logpath), "%s/c18_scratch_%d.log", exe, (int)getpid());
+	}
 	if (pipe(g_pipe) != 0) return 3;
 	/* ma_ring: small rings, consumer thread running for the whole process */
 	muggle_ma_ring_ctx_set_capacity(8);
